@@ -41,7 +41,7 @@ class PathSlicer(T.Slicer):
             b = self.trail[k]
             items = []
             for (j, full) in byblk.get(b, []):
-                if j == -1:
+                if j < 0:
                     # call destination: defined on the edge to the next trail block
                     if not first:
                         t = self.body.blocks[b]["t"]
